@@ -779,7 +779,13 @@ def decorator_order_rule(ctx):
     g.decorator_order(ctx, 'C18.decorator-order', ['bumble.l2cap', 'bumble.att', 'bumble.smp', 'bumble.sdp', 'bumble.rfcomm', 'bumble.avdtp', 'bumble.avctp', 'bumble.avrcp', 'bumble.avc', 'bumble.a2dp', 'bumble.core'])
 
 
+def division_guard_rule(ctx):
+    from ..generic_rules import division_guard
+    division_guard(ctx, 'C18.division-guard', ['bumble.avrcp', 'bumble.avdtp', 'bumble.avctp', 'bumble.a2dp', 'bumble.sdp', 'bumble.rfcomm', 'bumble.l2cap', 'bumble.att', 'bumble.smp', 'bumble.rtp', 'bumble.core'])
+
+
 RULES = [
+    ('C18.division-guard', division_guard_rule),
     ('C18.decorator-order', decorator_order_rule),
     ('C18.avdtp-fragments', avdtp_fragments),
     ('C18.sdp-depth', sdp_depth),
